@@ -1,9 +1,11 @@
 (* C19 — published broker counts are rounded up to 8 and never too low; unique addresses; distinct-IP journal.
-   Models: Model/Round8.v, Model/Metrics.v, Model/Journal.v, Model/BrokerJournal.v.
-   Proofs: Proofs/Round8Proofs.v, MetricsProofs.v, JournalProofs.v, BrokerJournalProofs.v. *)
+   Models: Model/Round8.v, Model/Metrics.v, Model/Journal.v, Model/BrokerJournal.v, Model/JournalConc.v.
+   Proofs: Proofs/Round8Proofs.v, MetricsProofs.v, MetricsGeoProofs.v, JournalProofs.v, BrokerJournalProofs.v,
+           JournalConcProofs.v. *)
 From Coq Require Import List NArith ZArith Bool.
-From Snow Require Import Lib.Wire Model.Round8 Model.Metrics Model.Journal Model.BrokerJournal.
-From Snow Require Import Proofs.Round8Proofs Proofs.MetricsProofs Proofs.MetricsGeoProofs Proofs.JournalProofs Proofs.BrokerJournalProofs.
+From Snow Require Import Lib.Wire Model.Round8 Model.Metrics Model.Journal Model.BrokerJournal Model.JournalConc.
+From Snow Require Import Proofs.Round8Proofs Proofs.MetricsProofs Proofs.MetricsGeoProofs Proofs.JournalProofs Proofs.BrokerJournalProofs
+  Proofs.JournalConcProofs.
 Import ListNotations.
 
 (* ---- binCount (float64 exact below 2^53: stated limitation, floats are not modelled) ---- *)
@@ -92,28 +94,74 @@ Theorem C19_unique_sets : forall (g : bool) (ops : list op) (u : N),
   (forall a, In a (tsets (exec ops (minit g)) u) <-> In a (flat_map (polled u) (since_zero ops))).
 Proof. exact unique_sets. Qed.
 
+(* Histories here include geoip reloads (LoadGeoipDatabases on SIGHUP, op [Reload ok]) at ANY point of a period.
+   [period_geo g ops] = whether a table was loaded when the running period began, [first_sight g0 u a P] = the first
+   accepted poll of address a under type class u in the period's ops P: (a table was loaded at that moment, the NAT
+   type it reported, the country the table of that moment resolved it to). *)
+
 (* NAT-type figures (snowflake-ips-nat-restricted / -unrestricted / -unknown; NOT binned by the code or the spec):
    the number of distinct addresses whose FIRST accepted poll of the period under some proxy type (the only poll
-   UpdateCountryStats looks at) reported that NAT type; all three are 0 without a geoip database *)
+   UpdateCountryStats looks at) reported that NAT type while a geoip table was loaded *)
 Theorem C19_nat_buckets : forall (g : bool) (ops : list op),
-  let s := exec ops (minit g) in let r := print s in let P := since_zero ops in
+  let s := exec ops (minit g) in let r := print s in let P := since_zero ops in let g0 := period_geo g ops in
   (r_natr r = N.of_nat (List.length (nat_r s)) /\ NoDup (nat_r s) /\
-   forall a, In a (nat_r s) <-> g = true /\ exists u c, first_poll u a P = Some (1%N, c)) /\
+   forall a, In a (nat_r s) <-> exists u c, first_sight g0 u a P = Some (true, 1%N, c)) /\
   (r_natu r = N.of_nat (List.length (nat_u s)) /\ NoDup (nat_u s) /\
-   forall a, In a (nat_u s) <-> g = true /\ exists u c, first_poll u a P = Some (2%N, c)) /\
+   forall a, In a (nat_u s) <-> exists u c, first_sight g0 u a P = Some (true, 2%N, c)) /\
   (r_natk r = N.of_nat (List.length (nat_k s)) /\ NoDup (nat_k s) /\
-   forall a, In a (nat_k s) <-> g = true /\ exists u n c, first_poll u a P = Some (n, c) /\ n <> 1%N /\ n <> 2%N).
+   forall a, In a (nat_k s) <-> exists u n c, first_sight g0 u a P = Some (true, n, c) /\ n <> 1%N /\ n <> 2%N).
 Proof. exact printed_nat. Qed.
 
 (* country figures (snowflake-ips CC=NUM; not binned either): every country appears once, never with 0, and NUM is,
    summed over the five type classes, the number of distinct addresses of the class (the per-type sets of
-   C19_unique_sets) whose first accepted poll of the period resolved to CC *)
+   C19_unique_sets) whose first accepted poll of the period happened with a table loaded and resolved to CC - the
+   attribution AT FIRST SIGHTING: a reload later in the period changes neither whether nor where an address counts *)
 Theorem C19_countries : forall (g : bool) (ops : list op),
-  let s := exec ops (minit g) in let r := print s in let P := since_zero ops in
+  let s := exec ops (minit g) in let r := print s in let P := since_zero ops in let g0 := period_geo g ops in
   NoDup (map fst (r_cc r)) /\ (forall kv, In kv (r_cc r) -> (0 < snd kv)%N) /\
   (forall u, NoDup (tsets s u) /\ forall a, In a (tsets s u) <-> In a (flat_map (polled u) P)) /\
-  forall c, aget 0%N c (r_cc r) = if g then ccsum c P (tsets s) else 0%N.
+  forall c, aget 0%N c (r_cc r) = ccsumg c g0 P (tsets s).
 Proof. exact printed_countries. Qed.
+
+(* a reload by itself changes no published figure: not the log figures, not the prometheus counters, not the
+   de-duplication sets; only the table state *)
+Theorem C19_geoip_reload_changes_no_figure : forall (s : mstate) (ok : bool),
+  print (apply_op s (Reload ok)) = print s /\ prom (apply_op s (Reload ok)) = prom s /\
+  ptotal (apply_op s (Reload ok)) = ptotal s /\ tsets (apply_op s (Reload ok)) = tsets s /\
+  geo (apply_op s (Reload ok)) = ok.
+Proof. exact reload_changes_no_figure. Qed.
+
+(* the two statements as they read for histories without a reload: the table state is the start-up one throughout *)
+Theorem C19_countries_no_reload : forall (g : bool) (ops : list op), no_reload ops = true ->
+  let s := exec ops (minit g) in let r := print s in let P := since_zero ops in
+  forall c, aget 0%N c (r_cc r) = if g then ccsum c P (tsets s) else 0%N.
+Proof. exact printed_countries_no_reload. Qed.
+
+Theorem C19_nat_buckets_no_reload : forall (g : bool) (ops : list op), no_reload ops = true ->
+  let s := exec ops (minit g) in let P := since_zero ops in
+  (forall a, In a (nat_r s) <-> g = true /\ exists u c, first_poll u a P = Some (1%N, c)) /\
+  (forall a, In a (nat_u s) <-> g = true /\ exists u c, first_poll u a P = Some (2%N, c)) /\
+  (forall a, In a (nat_k s) <-> g = true /\ exists u n c, first_poll u a P = Some (n, c) /\ n <> 1%N /\ n <> 2%N).
+Proof. exact printed_nat_no_reload. Qed.
+
+(* 65 (US) and 66 (CA) poll; the tables are replaced by a release that calls the same ranges SU and AC; 65 polls
+   again and 67 (AC under the new table) polls: US=1 CA=1 AC=1 - the figures of before the reload are all still
+   there, 65 is not counted again.  Then a reload fails (no table): 68 polls and is in the unique-address figure but
+   in no country; after a good reload 68 polls again and STILL is in no country for the rest of the period (its first
+   sighting was without a table). *)
+Example C19_geoip_reload_example :
+  let US := [85%N; 83%N] in let CA := [67%N; 65%N] in let SU := [83%N; 85%N] in let AC := [65%N; 67%N] in
+  let ops := [ProxyPoll (Some ([65%N], US)) 0 1 true Idle; ProxyPoll (Some ([66%N], CA)) 0 2 true Idle; Reload true;
+              ProxyPoll (Some ([65%N], SU)) 0 1 true Idle; ProxyPoll (Some ([67%N], AC)) 0 0 true Idle; Reload false;
+              ProxyPoll (Some ([68%N], AC)) 0 1 true Idle; Reload true; ProxyPoll (Some ([68%N], AC)) 0 1 true Idle] in
+  let r := print (exec ops (minit true)) in
+  r_cc r = [(US, 1%N); (CA, 1%N); (AC, 1%N)] /\ r_type r 0%N = 4%N /\ r_natr r = 1%N /\ r_natu r = 1%N /\ r_natk r = 1%N /\
+  first_sight true 0 [65%N] ops = Some (true, 1%N, US) /\ first_sight true 0 [68%N] ops = Some (false, 1%N, AC) /\
+  no_reload ops = false /\ period_geo true ops = true.
+Proof. cbv zeta. repeat split; reflexivity. Qed.
+Example C19_no_reload_hyp_satisfiable :
+  no_reload [ProxyPoll (Some ([65%N], [85%N; 83%N])) 0 1 true Idle; Zero; Print] = true.
+Proof. reflexivity. Qed.
 
 (* address 65 polls as standalone (restricted, US) and as webext (unrestricted, US), address 66 as standalone
    (unknown NAT, CA), then 65 again as standalone with another NAT type: US=2, CA=1; 65 is in the restricted and in
@@ -325,3 +373,74 @@ Example C19_journal_repeat_example :
   fst (count bytes beq 5%Z 9%Z (w_out (b_w s))) = 2%N /\ fst (count bytes beq 9%Z 10%Z (w_out (b_w s))) = 1%N.
 Proof. cbv zeta. split; [cbn; repeat split; discriminate | repeat split; reflexivity]. Qed.
 
+
+(* ---- the journal writer under concurrent callers: the flush is atomic w.r.t. adds BECAUSE both run under Metrics.lock ----
+   Model/JournalConc.v: any number of threads calling RecordIPAddress / WriteIPSetToDisk, every call cut into its
+   steps (interval test; Dump + Write; Sync returns + lastWriteTime + Reset; sketch add), the steps of different
+   threads interleaved in any order, the clock advancing anywhere.  That every access of the writer's fields happens
+   under Metrics.lock in the code is C20's table; here: what the mutex buys, and what is lost without it. *)
+
+(* WITH the mutex, for EVERY schedule: the completed calls (in completion order) have clock readings that never go
+   back; whenever the mutex is free the writer is exactly the sequential writer of C19_journal_partition run on
+   them; and when every thread is outside, the mutex is free *)
+Theorem C19_journal_conc_serial :
+  forall (addr hash : Type) (mask : addr -> hash) (heqb : hash -> hash -> bool) (t0 interval : Z) (evs : list (cev addr)),
+  let s := crun addr hash mask heqb true evs (cinit t0 interval) in
+  mono addr t0 (c_hist s) /\
+  (c_lock s = None -> c_w s = jrun addr hash mask heqb (c_hist s) (new_writer t0 interval)) /\
+  ((forall j, c_pc s j = JI) -> c_lock s = None).
+Proof. exact conc_serial. Qed.
+
+(* between the two halves of a flush (Dump + Write done, Reset not yet: the disk write and fsync) no other thread is
+   anywhere but outside or waiting for the mutex; the sketch still is the dumped one and lastWriteTime the chunk's start *)
+Theorem C19_journal_conc_flush_undisturbed :
+  forall (addr hash : Type) (mask : addr -> hash) (heqb : hash -> hash -> bool) (t0 interval : Z) (evs : list (cev addr))
+         (i : nat) (now : Z) (k : option addr),
+  let s := crun addr hash mask heqb true evs (cinit t0 interval) in
+  c_pc s i = JW2 now k ->
+  (forall j, j <> i -> c_pc s j = JI \/ exists c, c_pc s j = JWant c) /\
+  exists c, w_out (c_w s) = w_out (jrun addr hash mask heqb (c_hist s) (new_writer t0 interval)) ++ [c] /\
+            c_sk c = w_cur (c_w s) /\ c_start c = w_last (c_w s) /\ c_end c = now /\
+            w_cur (c_w s) = w_cur (jrun addr hash mask heqb (c_hist s) (new_writer t0 interval)).
+Proof. exact conc_flush_undisturbed. Qed.
+
+(* hence C19_journal_partition / C19_journal_records_every_poll for concurrent callers: under every schedule, whenever
+   the mutex is free, every completed RecordIPAddress is, in order, in exactly one emitted chunk - whose span contains
+   its instant - or in the open sketch; no chunk is written twice (the chunks tile the time line) *)
+Theorem C19_journal_conc_records_every_poll :
+  forall (addr hash : Type) (mask : addr -> hash) (heqb : hash -> hash -> bool) (t0 interval : Z) (evs : list (cev addr)),
+  let s := crun addr hash mask heqb true evs (cinit t0 interval) in
+  c_lock s = None ->
+  exists (segs : list (list (Z * addr))) (open : list (Z * addr)),
+    concat segs ++ open = flat_map (op_events addr) (c_hist s) /\
+    Forall2 (chunk_ok addr hash mask heqb) (w_out (c_w s)) segs /\
+    w_cur (c_w s) = sk_of hash heqb (masks addr hash mask open) /\
+    Forall (fun e => (w_last (c_w s) <= fst e)%Z) open /\
+    tiled hash t0 (w_out (c_w s)) (w_last (c_w s)).
+Proof. exact conc_records_every_call. Qed.
+
+(* WITHOUT the mutex (RecordIPAddress outside the critical section): REFUTED.  A poll arriving while another one is
+   in the disk write of the per-interval flush writes the same chunk a second time and its address is then wiped by the
+   first flusher's Reset: completed (it is in the history at instant 6) and in no chunk and not in the open sketch *)
+Theorem C19_journal_unlocked_refuted :
+  exists sched, let s := crun N N (fun x => x) N.eqb false sched (cinit 0%Z 2%Z) in
+    cquiet N N 2 s = true /\
+    c_hist s = [Add 1%Z 1%N; Add 6%Z 3%N; Add 5%Z 2%N; Flush 9%Z] /\
+    map (fun c => (c_start c, c_end c, c_sk c)) (w_out (c_w s)) = [(0%Z, 5%Z, [1%N]); (0%Z, 6%Z, [1%N]); (5%Z, 9%Z, [2%N])] /\
+    w_cur (c_w s) = [] /\
+    existsb (fun c => existsb (N.eqb 3%N) (c_sk c)) (w_out (c_w s)) = false /\ existsb (N.eqb 3%N) (w_cur (c_w s)) = false.
+Proof. exists lost_sched. exact unlocked_loses_address. Qed.
+
+(* the same schedule with the mutex (thread 1 waits until thread 0 has unlocked): nothing lost, nothing twice *)
+Example C19_journal_conc_nonvacuous :
+  let s := crun N N (fun x => x) N.eqb true (lost_sched ++ [Step 1; Step 1; Step 1; Step 1; Step 1]%nat) (cinit 0%Z 2%Z) in
+  cquiet N N 2 s = true /\ c_lock s = None /\
+  c_hist s = [Add 1%Z 1%N; Add 5%Z 2%N; Flush 9%Z; Add 9%Z 3%N] /\
+  map (fun c => (c_start c, c_end c, c_sk c)) (w_out (c_w s)) = [(0%Z, 5%Z, [1%N]); (5%Z, 9%Z, [2%N])] /\
+  w_cur (c_w s) = [3%N].
+Proof. exact locked_same_schedule. Qed.
+(* a state between the two halves of a flush with another thread waiting *)
+Example C19_journal_conc_flush_hyp_satisfiable :
+  let s := crun N N (fun x => x) N.eqb true [Tick 5; Call 0 (CPoll 2%N); Step 0; Step 0; Step 0; Call 1 (CPoll 3%N); Step 1]%nat (cinit 0%Z 2%Z) in
+  c_pc s 0%nat = JW2 5%Z (Some 2%N) /\ c_pc s 1%nat = JWant (CPoll 3%N).
+Proof. cbv zeta. split; reflexivity. Qed.
